@@ -23,9 +23,17 @@ func (cx *Ctx) c15Calls(r *rng, k int) []spec.Call {
 			return
 		}
 		shared = calls[0].Opts
+		// in half of these all callers pass the very same Option values (one []autog.Option built once by the application
+		// and handed to every goroutine): state hidden inside an option closure is then shared state
+		shareValues := r.chance(50)
 		for i := range calls {
 			o := &calls[i].Opts
 			o.P1, o.P2, o.P3, o.P4, o.BK, o.P5 = shared.P1, shared.P2, shared.P3, shared.P4, shared.BK, shared.P5
+			if shareValues && i > 0 {
+				calls[i].Opts = shared
+				zero := 0
+				calls[i].ShareOpts = &zero
+			}
 		}
 	}()
 	for i := 0; i < k; i++ {
@@ -82,6 +90,31 @@ func (cx *Ctx) c15Calls(r *rng, k int) []spec.Call {
 			o.P5 = "polyline"
 		}
 		calls = append(calls, spec.Call{Edges: es, Opts: o})
+	}
+	if k >= 3 && r.chance(25) {
+		// one or two callers ABORT: an empty source or a malformed edge (documented panics, recovered by that caller).
+		// Whatever such a call leaves behind - a flag not cleared, a buffer released that it never owned - is seen by the
+		// valid calls running next to it. Alone, the aborting call panics the same way, so O1 applies to it as well.
+		for n := r.between(1, 2); n > 0; n-- {
+			i := r.intn(len(calls))
+			if r.chance(50) || len(calls[i].Edges) == 0 {
+				calls[i].Edges = [][]string{}
+			} else {
+				calls[i].Edges[r.intn(len(calls[i].Edges))] = pick(r, []string{"x"}, []string{"x", "y", "z"}, []string{})
+			}
+		}
+	}
+	if k >= 2 && r.chance(30) {
+		// every valid caller gets a graph of at least 16-24 nodes (pooled / recycled resources are usually reserved for
+		// graphs above some small size)
+		for i := range calls {
+			if n := nodeCount(calls[i].Edges); n > 0 && n < 16 {
+				ids := nodeIDs(calls[i].Edges)
+				for x := 0; n+x < r.between(16, 24); x++ {
+					calls[i].Edges = append(calls[i].Edges, []string{ids[r.intn(len(ids))], fmt.Sprintf("pad%d", x)})
+				}
+			}
+		}
 	}
 	return calls
 }
@@ -186,9 +219,12 @@ func (cx *Ctx) oracleC15(rs []JobResult) (bool, string, string, string) {
 		if a.Verdict == "BUDGET" || b.Verdict == "BUDGET" {
 			continue
 		}
-		if jr.Job.Calls[i].Opts.P1 == "greedy-random" && (a.Tasks > 1 || b.Tasks > 1) {
-			// the explicitly non-deterministic option reads the clock; once the call itself runs several goroutines the
-			// simulated time at that read depends on the schedule, so "what it returns when run alone" is not one value
+		if jr.Job.Calls[i].Opts.P1 == "greedy-random" && (a.Tasks > 1 || b.Tasks > 1 || a.ClockHash != b.ClockHash) {
+			// the explicitly non-deterministic option reads the clock: "what it returns when run alone" is one value only
+			// for one sequence of clock readings. The two runs are compared when the call was handed exactly the same
+			// clock values in both (conc jobs use a per-read clock, so that contention - more loop iterations, a cache
+			// miss instead of a hit - does not shift the readings); otherwise they are not comparable. Once the call itself
+			// runs several goroutines the order of its reads depends on the schedule.
 			continue
 		}
 		if a.Hash != b.Hash || a.Verdict != b.Verdict {
@@ -252,6 +288,7 @@ func (cx *Ctx) runC15() {
 	r := rng{s: mix(cx.Seed, 0xC15)}
 
 	var jobs []*spec.Job
+	nSharedOpts := 0
 	for i := 0; i < nSpecs; i++ {
 		k := r.between(2, 8)
 		calls := cx.c15Calls(&r, k)
@@ -275,6 +312,9 @@ func (cx *Ctx) runC15() {
 			k = 2
 			o := spec.Options{P1: pick(&r, "", "dfs"), P4: pick(&r, "", "valign", "packright"), P5: pick(&r, "", "straight", "noop")}
 			calls = []spec.Call{{Edges: c15Dense(&r, "x"), Opts: o}, {Edges: c15Dense(&r, "y"), Opts: o}}
+		}
+		if len(calls) > 1 && calls[1].ShareOpts != nil {
+			nSharedOpts++
 		}
 		res := make([]spec.Resolution, k)
 		for t := range res {
@@ -375,6 +415,7 @@ func (cx *Ctx) runC15() {
 			cx.c15Shrink(jr.Job, key, what, fp)
 		}
 	}
+	nEval := len(results)
 	results = nil
 	// ---- O3: real threads under the race detector (adjunct)
 	cx.phase("C15: real-thread adjunct under the race detector")
@@ -382,7 +423,7 @@ func (cx *Ctx) runC15() {
 
 	wall := time.Since(cx.Start).Seconds()
 	cov := map[string]any{
-		"evaluations":         len(results),
+		"evaluations":         nEval,
 		"distinct_nontrivial": len(nontrivial),
 		"rule": "a case is one schedule of k (2..8) concurrent Layout calls on independent sources and option values, no monitor, all library code real; the cooperative scheduler decides at every access to a package-level variable " +
 			"(and at a sampled subset of function entries) which caller runs next (round-robin, uniform random, PCT with d<=3 change points). Oracles: O1 every caller's result equals its solo result (same task-local choice streams); " +
@@ -391,6 +432,7 @@ func (cx *Ctx) runC15() {
 		"samples":                   samples,
 		"specs":                     nSpecs,
 		"schedules_per_spec":        nSched,
+		"specs_whose_callers_share_one_set_of_option_values": nSharedOpts,
 		"distinct_schedule_fingerprints": len(fps),
 		"context_switches_total":    switches,
 		"yields_total":              yields,
@@ -400,7 +442,7 @@ func (cx *Ctx) runC15() {
 		"verdicts":                  verdicts,
 		"sim_ticks_total":           ticks,
 		"jobs_that_died":            died,
-		"runs_per_hour":             int(float64(len(results)) / wall * 3600),
+		"runs_per_hour":             int(float64(nEval) / wall * 3600),
 		"package_level_variables":   cx.Seams["vars"],
 		"package_level_accesses_static": cx.Seams["accesses"],
 		"unowned_seams":             cx.unownedSeams(),
@@ -589,6 +631,8 @@ func (cx *Ctx) c15Real(r *rng) map[string]any {
 	if len(calls) > 54 {
 		calls = append(calls[:48], calls[len(calls)-6:]...)
 	}
+	// two callers that abort (documented panics, recovered by the caller) run among the valid ones
+	calls = append(calls, spec.Call{Edges: [][]string{}}, spec.Call{Edges: [][]string{{"a", "b"}, {"x"}, {"b", "c"}}})
 	rounds := cx.count(12, 120)
 	type cfg struct {
 		procs string
@@ -606,11 +650,11 @@ func (cx *Ctx) c15Real(r *rng) map[string]any {
 		case "1":
 			rr = max(3, rounds/6)
 		}
-		jobs = append(jobs, &spec.Job{ID: i, Kind: "stress", Calls: calls, Goroutines: c.g, Rounds: rr})
+		jobs = append(jobs, &spec.Job{ID: i, Kind: "stress", Calls: calls, Goroutines: c.g, Rounds: rr, ShareOpts: true})
 		runs += c.g * rr
 	}
 	out := map[string]any{"inputs": len(calls), "goroutine_runs": runs, "configs": []string{"GOMAXPROCS=16 x 64 goroutines", "GOMAXPROCS=4 x 32 goroutines", "GOMAXPROCS=1 x 16 goroutines"},
-		"note": "runtime monitoring of real threads (not simulation): covers heap objects reached through aliases and kind-U accesses that O2 cannot see"}
+		"note": "runtime monitoring of real threads (not simulation): covers heap objects reached through aliases and kind-U accesses that O2 cannot see; all goroutines that make the same call share one set of Option values (built once), each with a source of its own"}
 	races := 0
 	for i, c := range cfgs {
 		p := cx.racePool()
